@@ -237,8 +237,13 @@ class Gen:
                 else: self.emit('aparseb 0 %s' % self.arg(self.pick(RELS)))
 
     def sp_op(self, slot, kind='sp'):
-        o = self.pick(['append', 'append', 'set', 'del', 'del2', 'remove', 'remove2', 'has', 'has2', 'getv', 'getall', 'sort', 'sort', 'clear', 'parse', 'size', 'str'] + (['get'] if kind == 'sp' else []))
+        o = self.pick(['append', 'append', 'set', 'del', 'del2', 'remove', 'remove2', 'has', 'has2', 'getv', 'getall', 'sort', 'sort', 'clear', 'parse', 'size', 'str'] + (['get'] if kind == 'sp' else ['removeif', 'removeif']))
         self.stat(kind + ':' + o)
+        if o == 'removeif':
+            # remove_if with a user predicate (value length, name length bound, first value byte, last name byte)
+            pk = self.pick(['vlen', 'vlen', 'nlenle', 'vfirst', 'nlast'])
+            k = {'vlen': self.r.randrange(4), 'nlenle': self.r.randrange(4)}.get(pk, self.pick([0x31, 0x32, 0x33, 0x61, 0x62, 0x76, 0x80, 0xA9, 0xBD]))
+            return '%s %d removeif %s %d' % (kind, slot, pk, k)
         # char-typed ill-formed names are finding F3: names/values here are well-formed text
         # names that really occur in the lists (the queries of STARTS, earlier appends) most of the time, so that
         # set / del / remove / has / get hit existing pairs
